@@ -20,7 +20,7 @@ def r02_1(ctx, run, rule='R02.1'):
     f = ctx.facts
     b = f.bodies.get(P + 'parse_json_value')
     if b is None:
-        run.violation(rule, P + 'parse_json_value', 'dispatch', 'function not found (anchor lost)')
+        run.undecided(rule, P + 'parse_json_value', 'dispatch', 'function not found (anchor lost)')
         return
     ps, _ = explore(b)
     table = {}
@@ -66,7 +66,7 @@ def r02_2(ctx, run, rule='R02.2'):
     f = ctx.facts
     b = f.bodies.get(P + 'skip_unused')
     if b is None:
-        run.violation(rule, P + 'skip_unused', 'whitespace', 'function not found (anchor lost)')
+        run.undecided(rule, P + 'skip_unused', 'whitespace', 'function not found (anchor lost)')
         return
     loops = natural_loops(b)
     ex = Explorer(b, max_paths=3000)
@@ -109,7 +109,7 @@ def r02_3(ctx, run, rule='R02.3'):
     f = ctx.facts
     b = f.bodies.get('util::parse_escaped_string')
     if b is None:
-        run.violation(rule, 'util::parse_escaped_string', 'table', 'function not found (anchor lost)')
+        run.undecided(rule, 'util::parse_escaped_string', 'table', 'function not found (anchor lost)')
         return
     ps, _ = explore(b, max_paths=4000)
     table = {}
@@ -143,7 +143,7 @@ def r02_5(ctx, run, rule='R02.5'):
     f = ctx.facts
     b = f.bodies.get(P + 'parse')
     if b is None:
-        run.violation(rule, P + 'parse', 'trailing', 'function not found (anchor lost)')
+        run.undecided(rule, P + 'parse', 'trailing', 'function not found (anchor lost)')
         return
     ps, _ = explore(b)
     n = 0
@@ -220,7 +220,7 @@ NUM_RE = re.compile(r'^(c\(45\)\+ s|c\(45\)-) (c\(48\)\+ s d-|c\(48\)- D) (c\(46
 def r02_6_11(ctx, run, rule_cls='R02.6', rule_lex='R02.11'):
     b, sigs = number_signatures(ctx)
     if b is None:
-        run.violation(rule_lex, P + 'parse_json_number', 'lexer', 'function not found (anchor lost)')
+        run.undecided(rule_lex, P + 'parse_json_number', 'lexer', 'function not found (anchor lost)')
         return
     loc = f'{b.file}:{b.line}'
     shapes = set()
@@ -267,7 +267,7 @@ def r02_7(ctx, run, rule='R02.7'):
     f = ctx.facts
     b = f.bodies.get(P + 'parse_json_object')
     if b is None:
-        run.violation(rule, P + 'parse_json_object', 'insert', 'function not found (anchor lost)')
+        run.undecided(rule, P + 'parse_json_object', 'insert', 'function not found (anchor lost)')
         return
     names = [canon(callee_name(t)) for _, t in b.calls()]
     ins = [n for n in names if n.endswith('BTreeMap::insert')]
